@@ -491,6 +491,14 @@ def h_script_timeout(prog, n_max):
             e = value.fields[0]
             if e.fields[0].variant != "Total":
                 return False                   # a script has no per-test limits: it is the document's limit that was hit
+            # what is kept of the stopped script's output: its bytes without the divider lines — nothing added, nothing else removed
+            outs = as_items_(e.fields[1])
+            if len(outs) != 1:
+                return False
+            kept = [b.v if b.concrete else None for b in as_items_(field_of(outs[0], "stdout").fields[0])]
+            want = list(b"".join(b"o%d\n" % i for i in range(ctx.notes["done"])) + b"partial\n")
+            if kept != want and kept != want[:-1]:
+                return False
         elif is_timeout or value.variant != "Ok" or len(as_items_(value.fields[0])) != ctx.notes["n"]:
             return False
         return z_and([z3.simplify(c_) for c_ in conds])
@@ -502,7 +510,7 @@ def h_script_timeout(prog, n_max):
             inputs.append(("%d test case(s), script stopped by the limit after %d" % (n, done), mk(n, True, done)))
     h = e2.Harness("script_executor_total_timeout", base.func, inputs, post, native=None, judge=None,
                    describe="single-script executor: the script's process gets exactly the document's total_timeout as its limit (absent → 900 s, 0 → none); a "
-                            "script stopped by it surfaces as Err(Timeout(Total)), a script that finishes never as a time-out",
+                            "script stopped by it surfaces as Err(Timeout(Total)) with the script's output minus the divider lines, a script that finishes never as a time-out",
                    bound="1..%d test cases; any total_timeout (absent / 0 / any value); script finishing, or stopped after 0..n-1 test cases" % n_max)
     h.models_cls = TimeoutModels
     return h
@@ -573,11 +581,14 @@ def replay_script_timeout(rep, h, res):
     """end to end: the real single-script executor with a short / zero / long document limit on real sleeps"""
     for model, r in res.raw_witnesses[:2]:
         bad = None
-        for limit_ms, cmds, want in ((300, ["echo a", "sleep 2"], "Timeout"), (0, ["echo a", "sleep 0.4"], "Ok"), (5000, ["echo a", "echo b"], "Ok")):
+        for limit_ms, cmds, want in ((300, ["echo a; echo b", "sleep 2"], "Timeout"), (0, ["echo a", "sleep 0.4"], "Ok"), (5000, ["echo a", "echo b"], "Ok")):
             nk, nv = NAT.call("script_skip", [{"commands": cmds, "skip": None, "default_skip": None, "total_timeout_ms": limit_ms}])
             got = "Timeout" if (nk == "return" and "Timeout" in str(nv.get("Err", ""))) else ("Ok" if nk == "return" and "Ok" in nv else str(nv)[:80])
             if got != want:
                 bad = bad or ("commands %s with total_timeout %d ms end as %s, expected %s" % (cmds, limit_ms, got, want), [cmds, limit_ms], [nk, nv])
+            elif got == "Timeout" and [bytes(x) for x in nv.get("kept_stdout", [])] != [b"a\nb\n"]:
+                bad = bad or ("commands %s stopped by total_timeout %d ms: the output kept is %r, the script wrote b'a\\nb\\n' before it was stopped"
+                              % (cmds, limit_ms, [bytes(x) for x in nv.get("kept_stdout", [])]), [cmds, limit_ms], [nk, nv])
         if bad:
             rep.violation("script-timeout", "the single-script executor: %s" % bad[0], {"kind": "eval", "fn": "script_skip", "args": bad[1], "native": bad[2], "harness": h.name})
         else:
